@@ -36,7 +36,8 @@ def generate(rng, tier):
     layout = rng.choice(["default", "multi", "multi"]) if not dual else "multi"
     ops = [{"t": 0.0, "op": "host", "h": "R", "ip": "10.0.0.1", "layout": layout, "ip6": "fe80::1" if dual else None},
            {"t": 0.0, "op": "peer", "p": "Q1", "ip": "10.0.0.9", "ports": [5353, 5354, 40001]},
-           {"t": 0.0, "op": "peer", "p": "Q2", "ip": "10.0.0.10", "ports": [5353, 6000]}]
+           {"t": 0.0, "op": "peer", "p": "Q2", "ip": "10.0.0.10", "ports": [5353, 6000]},
+           {"t": 0.0, "op": "peer", "p": "Q3", "ip": "10.0.0.11", "ports": [5353, 5354]}]
     if dual:
         ops.append({"t": 0.0, "op": "peer", "p": "Q6", "ip": "fe80::9", "ports": [5353, 5354]})
     t = 0.02
@@ -72,9 +73,21 @@ def generate(rng, tier):
         if rng.random() < 0.25:
             op["dst"] = ["fe80::1" if peer == "Q6" else "10.0.0.1", 5353]
         ops.append(op)
+        if sp != 5353 and rng.random() < 0.2:
+            # the mDNS daemon of the same machine (port 5353) sent the first packet of a truncated query just before:
+            # the responder holds it for continuation packets; the one-shot query is somebody else's
+            s = rng.choice(svcs)
+            r = SvcRecords(s)
+            # (a machine of its own, so that no other generated query from port 5353 continues that train)
+            op["p"], op["src_port"] = "Q3", 5354
+            op.pop("dst", None)
+            ops.append({"t": round(op["t"] - rng.choice([0.05, 0.2, 0.35]), 7), "op": "send", "p": "Q3", "src_port": 5353,
+                        "msg": {"q": [[rng.choice([s["type"], "_other._tcp.local."]), 12, 0]], "id": 0, "tc": 1,
+                                "an": [r.ptr.to_json()] if rng.random() < 0.5 else []}})
         if sp != 5353 and rng.random() < 0.35:
             # the same one-shot query (same bytes, same id) from another legacy client - or retransmitted by this one -
             # shortly afterwards
+            op.pop("dst", None)
             twin = dict(op)
             other = rng.choice([("Q1", 5354), ("Q1", 40001), ("Q2", 6000)])
             if rng.random() < 0.25:
@@ -240,6 +253,12 @@ def _oracle(w, expect, stats, out):
         t = ex["t"]
         txs = by_t.get(t, [])
         uni = [tx for tx in txs if not tx.multicast and tx.msg is not None and tx.msg.is_response and tx.dst == ex["src"]]
+        # several legacy queries of one client delivered in the same instant: their replies echo the id, attribute by it
+        same = [e2 for e2 in expect if e2["t"] == t and e2["src"] == ex["src"] and e2["legacy"] and e2["id"] != ex["id"]]
+        if ex["legacy"] and same and any(tx.msg.id == ex["id"] for tx in uni):
+            uni = [tx for tx in uni if tx.msg.id == ex["id"]]
+        elif ex["legacy"] and same:
+            uni = [tx for tx in uni if tx.msg.id not in {e2["id"] for e2 in same}]
         mc = [tx for tx in txs if tx.multicast and tx.msg is not None and tx.msg.is_response]
         U, M, N = ex["U"], ex["M"], ex["N"]
         qd = f"query id={ex['id']} {ex['q']} from {ex['src']} at {t - t0:.6f} ({'probe' if ex['probe'] else 'query'})"
@@ -248,6 +267,11 @@ def _oracle(w, expect, stats, out):
             for r in tx.msg.answers:
                 got_u[_key(r)] = r
         wantU = {_key(r): r for r in U.values()}
+        # replies to port-5353 queries carry id 0: when one source has several queries delivered in the same instant the
+        # unicast replies are judged against all of them together
+        for e2 in expect:
+            if e2 is not ex and e2["t"] == t and e2["src"] == ex["src"] and not e2["legacy"] and not ex["legacy"]:
+                wantU.update({_key(r): r for r in e2["U"].values()})
         optional = {k for k, r in wantU.items() if r.type == wire.T_NSEC}
         if wantU or got_u:
             stats["answered"] += 1
